@@ -171,6 +171,46 @@ def check_graph_log(br, g, tip, case):
                                          else sl[::-1]),
                   "C25/range-levels-1-not-mainline-slice",
                   [tip, i, j, direction, r1, sl])
+        # a limit on a range is a prefix of the range
+        for n in case["limits"][:1]:
+            for direction in ("reverse", "forward"):
+                full = loglist(br, levels=0, direction=direction,
+                               start_revision=s, end_revision=t)
+                got = loglist(br, levels=0, direction=direction,
+                              start_revision=s, end_revision=t, limit=n)
+                check(got == full[:n], "C25/limit-on-a-range-not-a-prefix",
+                      [tip, i, j, direction, n, got, full[:n]])
+        # the range as a graph difference (exclude_common_ancestry): what is in
+        # the end revision's ancestry and not in the start revision's
+        if i == j:
+            from breezy import errors as _errors
+            try:
+                got = loglist(br, levels=0, start_revision=s, end_revision=t,
+                              exclude_common_ancestry=True)
+                check(False, "C25/graph-difference-of-one-revision-accepted",
+                      [tip, i, got])
+            except _errors.CommandError:
+                pass
+        else:
+            wantx = gm.ancestry(g, lh[j - 1]) - gm.ancestry(g, lh[i - 1])
+            for direction in ("reverse", "forward"):
+                rng = loglist(br, levels=0, direction=direction,
+                              start_revision=s, end_revision=t,
+                              exclude_common_ancestry=True)
+                got = [x[0] for x in rng]
+                check(len(got) == len(set(got)) and set(got) == wantx,
+                      "C25/graph-difference-range-not-the-denoted-revisions",
+                      [tip, i, j, direction, got, sorted(wantx)])
+                for rid, revno, d in rng:
+                    check(revno == m[rid], "C25/range-revno", [tip, rid, revno])
+                r1 = loglist(br, levels=1, direction=direction,
+                             start_revision=s, end_revision=t,
+                             exclude_common_ancestry=True)
+                sl = lh[i:j]
+                check([x[0] for x in r1] == (sl if direction == "forward"
+                                             else sl[::-1]),
+                      "C25/graph-difference-levels-1-not-mainline-slice",
+                      [tip, i, j, direction, r1, sl])
         # with only one endpoint
         rng = loglist(br, levels=0, start_revision=s)
         check({x[0] for x in rng} == anc - (
@@ -210,6 +250,57 @@ def check_graph_log(br, g, tip, case):
         check(set(got) == gm.ancestry(g, r),
               "C25/dotted-end-range-omits-revisions",
               [tip, r, sorted(gm.ancestry(g, r) - set(got))])
+        check(rng[0][0] == r and rng[0][2] == 0,
+              "C25/dotted-end-range-does-not-start-at-depth-0", [tip, r, rng[:2]])
+        # both ends merged revisions (a development line): validity predicate
+        # on the listed set, the two directions and the two generation modes
+        # list the same revisions, depths are rebased so that the top level
+        # is 0 (merge depths inside such a range are presentation, they are
+        # not compared between the modes)
+        lower = sorted(gm.ancestry(g, r) - set(lh))
+        s_id = lower[(case["pick"] // 2) % len(lower)]
+        sx = revisionspec.RevisionSpec.from_string("revid:" + s_id
+                                                   ).in_history(br)
+        seen = {}
+        for direction in ("reverse", "forward"):
+            rng = loglist(br, levels=0, direction=direction,
+                          start_revision=sx, end_revision=t)
+            got = [x[0] for x in rng]
+            seen[direction] = got
+            check(len(got) == len(set(got)), "C25/dotted-range-duplicates",
+                  [tip, s_id, r, direction, got])
+            check(set(got) <= gm.ancestry(g, r) and r in got and s_id in got,
+                  "C25/dotted-range-not-within-the-end's-ancestry",
+                  [tip, s_id, r, direction, got])
+            check(not set(got) & (gm.ancestry(g, g[s_id][0])
+                                  if g[s_id] and g[s_id][0] in g else set()),
+                  "C25/dotted-range-reaches-below-its-start",
+                  [tip, s_id, r, direction, got])
+            for rid, revno, d in rng:
+                check(revno == m[rid], "C25/range-revno", [tip, rid, revno])
+                check(0 <= d <= depth[rid], "C25/dotted-range-depth",
+                      [tip, s_id, r, direction, rid, d, depth[rid]])
+            check(min(x[2] for x in rng) == 0,
+                  "C25/dotted-range-top-level-not-depth-0",
+                  [tip, s_id, r, direction, rng])
+            modes = []
+            for delayed in (False, True):
+                modes.append(sorted(rid.decode() for rid, rn, d in
+                                    _log._calc_view_revisions(
+                                        br, sx.rev_id, t.rev_id, direction,
+                                        generate_merge_revisions=True,
+                                        delayed_graph_generation=delayed)))
+            check(modes[0] == modes[1] == sorted(got),
+                  "C25/delayed-graph-generation-changes-the-view",
+                  [tip, s_id, r, direction, modes, got])
+        check(seen["reverse"][0] == r,
+              "C25/dotted-range-does-not-start-at-its-end", [tip, s_id, r])
+        check(sorted(seen["reverse"]) == sorted(seen["forward"]),
+              "C25/dotted-range-directions-list-different-revisions",
+              [tip, s_id, r, seen])
+        if s_id == r and len([p for p in g[r] if p in g]) < 2:
+            check(seen["reverse"] == [r],
+                  "C25/single-revision-range-lists-more", [tip, r, seen])
     if merges and (case["ranges"] or case["limits"]):
         return "merge+range" if nt else "merge+limit"
     return None
@@ -232,6 +323,12 @@ def run_dag(case, env):
     rev = logger_list(br, 0, direction="reverse")
     check({x[0] for x in rev} == gm.ancestry(g, case["tip"]),
           "C25/unlocked-log-not-the-ancestry", [case["tip"]])
+    if case["pick"] % 4 == 0:
+        # a branch without revisions has an empty log, in every mode
+        eb = bz.init_branch(d + "/empty", case["format"])
+        for lv, direction in ((0, "reverse"), (1, "forward")):
+            check(logger_list(eb, lv, direction=direction) == [],
+                  "C25/log-of-an-empty-branch-not-empty", [lv, direction])
     return ok(la) if la else trivial()
 
 
@@ -390,12 +487,60 @@ def run_file(case, env):
                   "C25/file-log-mainline-differs-between-matching-modes",
                   [tip, f, got[True], got[False], want, conv])
             all_levels(f, False, want_graph, strict)
+            # asking for deltas does not change what is listed
+            for dt in ("partial", "full"):
+                gd = [x[0] for x in loglist(
+                    br, levels=1, direction="reverse", specific_files=[f],
+                    _match_using_deltas=True, delta_type=dt)]
+                check(gd == got[True], "C25/file-log-changes-with-delta-type",
+                      [tip, f, dt, gd, got[True]])
+            # a limit is a prefix
+            n = 1 + case.get("lim", 0) % 3
+            for deltas in (True, False):
+                gl = [x[0] for x in loglist(
+                    br, levels=1, direction="reverse", specific_files=[f],
+                    _match_using_deltas=deltas, limit=n)]
+                check(gl == got[deltas][:n], "C25/file-log-limit-not-a-prefix",
+                      [tip, f, deltas, n, gl, got[deltas]])
+            # a mainline range [i, j] whose end revision has the file: the
+            # changes inside the range (the first one judged against its own
+            # left-hand parent, as everywhere)
+            ra, rb = case.get("range", [0, 0])
+            i = 1 + ra % len(lh)
+            j = i + rb % (len(lh) - i + 1)
+            if ts[lh[j - 1]][f]:
+                for deltas in (True, False):
+                    base = want if deltas else want_graph
+                    gr = [x[0] for x in loglist(
+                        br, levels=1, direction="reverse", specific_files=[f],
+                        _match_using_deltas=deltas, start_revision=info(br, i),
+                        end_revision=info(br, j))]
+                    wr = [r for r in lh[i - 1:j] if r in base][::-1]
+                    check(gr == wr, "C25/file-log-range-not-the-changes-in-it",
+                          [tip, f, deltas, i, j, gr, wr])
             if conv:
                 conv_seen.append([tip, f, got[True], got[False], conv])
             if any(len(g[r]) > 1 for r in want):
                 label = "file-change-arrives-through-merge"
             elif label is None and any(len(g[r]) > 1 for r in lh):
                 label = "file-log-over-merges"
+        # several files / a directory (tree comparison is the only mode for
+        # these): the union of the single-file answers, newest first
+        if len(present) > 1:
+            both = [r for r in lh if any(r in wanted(f) for f in present)][::-1]
+            gm_ = [x[0] for x in loglist(
+                br, levels=1, direction="reverse", specific_files=list(present),
+                _match_using_deltas=True)]
+            check(gm_ == both, "C25/multi-file-log-not-the-union",
+                  [tip, present, gm_, both])
+        if ts[tip]["d/f2"]:
+            # the directory itself is added by the first revision
+            wd = [r for r in lh if r == lh[0] or r in wanted("d/f2")][::-1]
+            gd = [x[0] for x in loglist(
+                br, levels=1, direction="reverse", specific_files=["d"],
+                _match_using_deltas=True)]
+            check(gd == wd, "C25/directory-log-not-the-changes-below-it",
+                  [tip, gd, wd])
         # Request classes with open findings: one class per case (case["fwd"])
         # so that one finding does not hide another, and after all strict
         # checks so that they hide nothing else.
@@ -424,6 +569,8 @@ def run_file(case, env):
 @st.composite
 def file_cases(draw, n_max=10):
     n = draw(st.integers(3, n_max))
+    if draw(st.integers(0, 4)) == 0:
+        n += 6            # more than one batch (9 revisions) of the log pipeline
     revs = []
     for i in range(n):
         rid = "r%d" % i
@@ -450,7 +597,9 @@ def file_cases(draw, n_max=10):
     ids = [r["id"] for r in revs]
     return {"revs": revs, "tip": draw(st.sampled_from(ids[len(ids) // 2:])),
             "format": draw(st.sampled_from(["2a", "2a", "pack-0.92"])),
-            "fwd": draw(st.sampled_from([0, 0, 1, 2, 3]))}
+            "fwd": draw(st.sampled_from([0, 0, 1, 2, 3])),
+            "lim": draw(st.integers(0, 2)),
+            "range": [draw(st.integers(0, 15)), draw(st.integers(0, 15))]}
 
 
 def kinds(tier):
